@@ -81,6 +81,10 @@ func init() {
 			cfg.BadAllot = 10
 			cfg.MaxStmts = 5
 			cfg.LiteralSaves = true
+			if i%3 == 0 {
+				cfg.CallWeight = 90
+				cfg.MaxStmts = 6
+			}
 			cfg.SmallPool = i%2 == 0
 			cfg.WorldProb = 100
 			var g *Gen
@@ -95,7 +99,15 @@ func init() {
 			}
 			genSeed := r.s
 			g = NewGen(r, cfg)
-			prog = g.Program()
+			directed := i%5 == 4
+			if c.replay != nil {
+				directed, _ = c.replay.Extra["directed"].(bool)
+			}
+			if directed {
+				prog = g.metaOverrideProgram()
+			} else {
+				prog = g.Program()
+			}
 			for len(prog.Stmts) < 2 {
 				prog.Stmts = append(prog.Stmts, g.sendStmt())
 			}
@@ -171,7 +183,7 @@ func init() {
 					sec = "(Some " + coqObserved(*o2, nil) + ")"
 				}
 				ci := sc.info("splitcase")
-				ci.Extra = map[string]any{"k": k, "gen_seed": genSeed, "small_pool": cfg.SmallPool, "first": shortObserved(o1)}
+				ci.Extra = map[string]any{"k": k, "gen_seed": genSeed, "small_pool": cfg.SmallPool, "directed": directed, "first": shortObserved(o1)}
 				if o2 != nil {
 					ci.Extra["second"] = shortObserved(*o2)
 				}
@@ -206,7 +218,13 @@ func init() {
 				sc = scenarioFromInfo(c.replay)
 			} else {
 				g := NewGen(r, cfg)
-				prog := g.Program()
+				var prog *GProgram
+				if i%6 == 5 {
+					prog = g.unboundedThenBoundedProgram()
+					c.count("directed:unboundedThenBounded")
+				} else {
+					prog = g.Program()
+				}
 				sc = scenarioFromGen(g, prog, 0, r)
 			}
 			var obs []string
@@ -264,7 +282,13 @@ func init() {
 	}
 }
 
-func outcomeEqual(a, b Outcome) bool {
+func outcomeEqual(a, b Outcome) (eq bool) {
+	// a result corrupted by a concurrent writer can make big.Int.String panic: that is a difference
+	defer func() {
+		if recover() != nil {
+			eq = false
+		}
+	}()
 	if a.Class != b.Class {
 		return false
 	}
